@@ -2,6 +2,7 @@
 C09 — perpetual pool aggregates equal the sum of positions; the counter equals the stored positions; custody is backed.
 Property theorems only.
 -/
+import ElysModel.Lemmas.Ids
 import ElysModel.Ledger.Perp
 namespace Elys.Perp.C09
 open FMap
@@ -155,5 +156,31 @@ example : Inv (run {} [[.openMtp 1, .upd 1 (3, true, "uatom", 0) 40, .upd 1 (3, 
   · exact ⟨fun _ => by simp [sumPos, sumIf, FMap.get], by simp [total, sumIf], fun _ => by simp [FMap.get], fun _ _ => by simp [FMap.get], by simp [keys]⟩
   · intro m hm op ho; simp at hm
     rcases hm with h | h | h <;> subst h <;> simp at ho <;> (try rcases ho with h | h | h | h) <;> (try subst h) <;> simp_all [noDestroy]
+
+/-! ### ids of stored positions (the store key is derived from the id) -/
+
+theorem ids_run_inv (s : Ids.St) (ops : List Ids.Op) (hi : Ids.InvLast s) (hr : ∀ op ∈ ops, Ids.repaired op) :
+    Ids.InvLast (Ids.runLast s ops) := by
+  induction ops generalizing s with
+  | nil => exact hi
+  | cons op ops ih =>
+    exact ih _ (Ids.stepLast_inv hi (hr op (List.mem_cons_self ..))) (fun o ho => hr o (List.mem_cons_of_mem _ ho))
+
+/-- over every history of opens, closes and export / import restarts of the module's genesis (counter set to the larger of the
+number of imported positions and the highest imported id — the rule since 41f14ef), no stored position has an id above the
+counter and no id is stored twice … -/
+theorem ids_never_reused (ops : List Ids.Op) (hr : ∀ op ∈ ops, Ids.repaired op) : Ids.InvLast (Ids.runLast {} ops) :=
+  ids_run_inv {} ops ⟨fun _ h => by simp at h, List.nodup_nil⟩ hr
+
+/-- … hence the id the next open hands out belongs to no stored position -/
+theorem next_id_fresh (s : Ids.St) (hi : Ids.InvLast s) : s.ctr + 1 ∉ s.live :=
+  fun hm => by have := hi.1 _ hm; omega
+
+/-- WITNESS (before 41f14ef): three opens, the first position is closed, the module is restarted from its exported genesis with the
+counter set to the NUMBER of positions (2): the next open takes id 3, which a stored position still has. -/
+theorem import_by_length_witness :
+    (Ids.runLast {} [.create, .create, .create, .remove 1, .reimport .byLength, .create]).live = [3, 3, 2] ∧
+    (Ids.runLast {} [.create, .create, .create, .remove 1, .reimport .byMax, .create]).live = [4, 3, 2] := by
+  constructor <;> decide
 
 end Elys.Perp.C09
